@@ -59,7 +59,13 @@ def check_method(ix, rep, cls, f, label, rule='R-CACHE'):
         return 0
     attr, key, hitnode, stores = m[:4]
     tot = E.transitive_effects(ix, cls, f.node.name)
-    deps = sorted(a for a in tot.reads if a != attr and ix.resolve_method(cls, a) is None)
+    def _is_plain_method(a):
+        m_ = ix.resolve_method(cls, a)
+        if m_ is None:
+            return False
+        # a property is an attribute for this purpose: `self.a = v` somewhere changes what `self.a` reads here
+        return not any(ast.unparse(d) == 'property' or ast.unparse(d).endswith('.setter') for d in m_.node.decorator_list)
+    deps = sorted(a for a in tot.reads if a != attr and not _is_plain_method(a))
     # an attribute whose value is part of the key is covered by the key
     keyed = set()
     try:
@@ -76,6 +82,34 @@ def check_method(ix, rep, cls, f, label, rule='R-CACHE'):
                     keyed.add(x.attr)
     deps = [d for d in deps if d not in keyed]
     n = 0
+    # the key determines the argument: it contains the parameter itself, or every attribute of the parameter that the memoised computation
+    # (this method and the helpers it hands the parameter to) reads
+    keytext = key
+    for st in ast.walk(f.node):
+        if isinstance(st, ast.Assign) and len(st.targets) == 1 and isinstance(st.targets[0], ast.Name) and st.targets[0].id == key:
+            keytext = ast.unparse(st.value)
+    params = [a.arg for a in f.node.args.args if a.arg != 'self']
+    try:
+        kt = ast.parse(keytext, mode='eval')
+    except SyntaxError:
+        kt = None
+    for p_ in params:
+        if kt is None:
+            break
+        whole = any(isinstance(x, ast.Name) and x.id == p_ and not _is_attr_base(kt, x) for x in ast.walk(kt))
+        in_key = {x.attr for x in ast.walk(kt) if isinstance(x, ast.Attribute) and isinstance(x.value, ast.Name) and x.value.id == p_}
+        read = _param_attr_reads(ix, cls, f, p_, set())
+        read.discard(None)
+        if not read:
+            continue
+        n += 1
+        slot = '%s:key:%s' % (label, p_)
+        missing = sorted(read - in_key)
+        if whole or not missing:
+            rep.ok(rule, f.module.rel, f.qual, slot, 'the key determines everything the computation reads of `%s`' % p_, f.node.lineno)
+        else:
+            rep.fail(rule, f.module.rel, f.qual, slot, 'the memo self.%s is keyed by `%s`, but the memoised computation reads %s: two arguments that differ only there share one '
+                     'entry and the second is answered with the first one\'s result' % (attr, keytext[:70], ', '.join('%s.%s' % (p_, m_) for m_ in missing)), hitnode.lineno)
     classes = [cls] + [c for c in ix.subclasses_of(cls)]
     seen = set()
     for c in classes:
@@ -86,13 +120,27 @@ def check_method(ix, rep, cls, f, label, rule='R-CACHE'):
                 if wname == '__init__' or w is f or id(w) in seen:
                     continue
                 seen.add(id(w))
+                if any(ast.unparse(d) == 'property' or ast.unparse(d).endswith('.setter') for d in w.node.decorator_list):
+                    # accessor of a property: runs as part of `self.<property> = v` in the methods judged here
+                    continue
                 ef = E.method_effects(w)
                 changed = sorted(d for d in deps if d in ef.writes)
                 if not changed:
                     continue
                 n += 1
-                clears = attr in ef.writes or any(isinstance(x, ast.Call) and isinstance(x.func, ast.Attribute) and x.func.attr == 'clear'
-                                                  and ast.unparse(x.func.value) == 'self.%s' % attr for x in ast.walk(w.node))
+
+                def _clears(fn_node):
+                    return any((isinstance(x, ast.Call) and isinstance(x.func, ast.Attribute) and x.func.attr == 'clear' and ast.unparse(x.func.value) == 'self.%s' % attr)
+                               or (isinstance(x, ast.Assign) and any(ast.unparse(t) == 'self.%s' % attr for t in x.targets)) for x in ast.walk(fn_node))
+                clears = attr in ef.writes or _clears(w.node)
+                if not clears:
+                    # the store goes through a property whose setter renews the memo
+                    for d in changed:
+                        for kk in ix.mro(c):
+                            if isinstance(kk, ClassInfo):
+                                for ww in kk.methods.values():
+                                    if ww.node.name == d and any(ast.unparse(dd).endswith('.setter') for dd in ww.node.decorator_list) and _clears(ww.node):
+                                        clears = True
                 slot = '%s:self.%s<-%s' % (label, attr, wname)
                 if clears:
                     rep.ok(rule, w.module.rel, w.qual, slot, 'changes %s and renews the memo' % ', '.join('self.' + d for d in changed), w.node.lineno)
@@ -104,6 +152,42 @@ def check_method(ix, rep, cls, f, label, rule='R-CACHE'):
         rep.ok(rule, f.module.rel, f.qual, '%s:self.%s' % (label, attr), 'the memoised computation reads no attribute that any method changes', f.node.lineno)
         n = 1
     return n
+
+
+def _is_attr_base(tree, name_node):
+    for x in ast.walk(tree):
+        if isinstance(x, ast.Attribute) and x.value is name_node:
+            return True
+    return False
+
+
+def _param_attr_reads(ix, cls, f, param, seen, depth=0):
+    """attributes of parameter `param` read by f or by the methods/helpers f passes it to"""
+    from sa.index import FuncInfo
+    out = set()
+    if id(f) in seen or depth > 4:
+        return out
+    seen.add(id(f))
+    for x in ast.walk(f.node):
+        if isinstance(x, ast.Attribute) and isinstance(x.value, ast.Name) and x.value.id == param and isinstance(x.ctx, ast.Load):
+            out.add(x.attr)
+        if isinstance(x, ast.Call):
+            pos = [i for i, a in enumerate(x.args) if isinstance(a, ast.Name) and a.id == param]
+            if not pos:
+                continue
+            tgt = None
+            if isinstance(x.func, ast.Attribute) and isinstance(x.func.value, ast.Name) and x.func.value.id == 'self':
+                tgt = ix.resolve_method(cls, x.func.attr)
+                shift = 1
+            elif isinstance(x.func, (ast.Name, ast.Attribute)):
+                tgt = ix.resolve_expr(f.module, x.func)
+                shift = 0
+            if isinstance(tgt, FuncInfo):
+                ps = [a.arg for a in tgt.node.args.args]
+                for i in pos:
+                    if i + shift < len(ps):
+                        out |= _param_attr_reads(ix, cls, tgt, ps[i + shift], seen, depth + 1)
+    return out
 
 
 POSITIVE = """
